@@ -80,10 +80,10 @@ def handler : Handler := fun scn => do
     let gen := (arr h "gen").map fun p => match p with
       | .arr a => ((a[0]?.bind (·.getStr?.toOption)).getD "", (a[1]?.bind (·.getStr?.toOption)).getD "")
       | _ => ("", "")
-    let hints : Hints := ⟨gen, strs h "gc", strs h "apply"⟩
     let fnErr := str rd "fnErr"
+    let ch : Choices := ⟨gen.map (·.2), orderBy (·.annot) (strs h "gc"), orderBy (·.d.rname) (strs h "apply")⟩
     let m : Mode := if mode == "fn" then
-        .fn (fun _ => if fnErr == "" then .desired ds else .failed) hints
+        .fn (fun _ => if fnErr == "" then .desired (orderBy (·.rname) (gen.map (·.1)) ds) else .failed) ch
       else .pt ds (gen.map (·.2))
     let plan : Plan := if has rd "fault" then
         let f := obj rd "fault"
